@@ -15,6 +15,24 @@ CLAIMED = {
              "binary64 rounding not modelled.",
         technique="Coq proof (field/nsatz over R) on a translated model + translation validation",
         design="6/C02"),
+    "C17": dict(
+        text="Coq theorems (axiom-free) about a hand model of f2s/ChunkOutput/next_value/_geqdsk.write layout: the reader's regular "
+             "expression recovers every value of any list of blocks of any length and chunk phase, the whole file body token stream equals "
+             "the reader's expected sequence, abutting e16.9 fields are read back. The model is compared character-for-character with the "
+             "real writer and value-for-value with the real reader on every run; write->read and read_geqdsk's axis mapping are checked on the implementation.",
+        note="Trusted: Coq kernel; printf %1.9E rounding and Python float()/int() parsing (checked against the decimal module each run); "
+             "header line outside the model (oracle only); guard nx,ny<=999, 2-digit exponents, <=9999 boundary points.",
+        technique="Coq proof (induction over token lists) on a hand model + correspondence by vm_compute",
+        design="6/C17"),
+    "C20": dict(
+        text="Coq theorems (axiom-free, exact rationals) about a hand model mirroring find_intersections' four slope-class branches: every "
+             "reported point lies on a wall edge and on the segment for any polyline (soundness, all branches); completeness for the representative "
+             "branch. The model is evaluated by vm_compute against the float implementation (find_intersections, wallIntersection, polygons.area/"
+             "clockwise/intersect, closest_approach) on lattice and random dyadic cases each run.",
+        note="Trusted: Coq kernel; the correspondence harness; completeness of three of four branches rests on the correspondence only; "
+             "cases whose exact outcome depends on the tolerance are counted as degenerate and not compared.",
+        technique="Coq proof (field/lra over Q) on a hand model + differential correspondence",
+        design="6/C20"),
 }
 
 PENDING = ["C01", "C03", "C04", "C05", "C06", "C07", "C08", "C09", "C10", "C11", "C12", "C13", "C14", "C15", "C16", "C17", "C18", "C19", "C20"]
